@@ -721,11 +721,9 @@ def Input.srcSem (inp : Input) : SideSem :=
   ⟨inp.src, ptrPaths [] inp.src ++ (match inp.mapperPtr with | some true => [["Mapper"]] | _ => [])⟩
 def Input.destSem (inp : Input) : SideSem := ⟨inp.dest, ptrPaths [] inp.dest⟩
 
-/-- `s.ToX()` on a source value whose slots `N` are nil (`recvNil`: nil receiver) -/
-def execTo (inp : Input) (N : List String) (recvNil : Bool := false) : Outcome :=
+/-- `s.ToX()` on a source value whose slots `N` are nil (`recvNil`: nil receiver); plan and tables precomputed -/
+def execToP (inp : Input) (p : Plan) (t : Tables) (N : List String) (recvNil : Bool := false) : Outcome :=
   if recvNil then .nil else
-  let p := plan inp
-  let t := tables inp p
   let mapperNil := inp.mapperPtr == some true && N.contains "Mapper"
   let rs := inp.srcSem
   let ws := inp.destSem
@@ -735,28 +733,34 @@ def execTo (inp : Input) (N : List String) (recvNil : Bool := false) : Outcome :
       | none => execAlloc ws.ptrs t.destAlloc {}
     execStmts rs ws N mapperNil p.toStmts w0)
 
+def execTo (inp : Input) (N : List String) (recvNil : Bool := false) : Outcome :=
+  execToP inp (plan inp) (tables inp (plan inp)) N recvNil
+
 inductive Recv where
   | nil | clean | dirty
   deriving DecidableEq, Repr, Inhabited
 
 /-- `r.FromX(d)` on a destination value whose slots `N` are nil. Without a constructor the receiver
-    is reset first, so whatever `r` held is gone (including an embedded `*Mapper`); with one, the
-    arguments are evaluated on the ORIGINAL receiver, before the nil test -/
-def execFrom (inp : Input) (N : List String) (recv : Recv := .clean) (argNil : Bool := false) : Outcome :=
+    is reset first (`*s = T{}` / `s = new(T)`), so whatever `r` held is gone — including an embedded
+    `*Mapper`; with one, the arguments are evaluated on the ORIGINAL receiver, before the nil test,
+    and the constructor allocates every embedded pointer -/
+def execFromP (inp : Input) (p : Plan) (t : Tables) (N : List String) (recv : Recv := .clean) (argNil : Bool := false) : Outcome :=
   if argNil then .nil else
-  let p := plan inp
-  let t := tables inp p
   let rs := inp.destSem
   let ws := inp.srcSem
   ofExcept (do
-    let w0 ← match p.srcCtor with
-      | some args =>
-        -- `s.Fn(x)` on the incoming receiver: nil receiver ⇒ panic; clean receiver ⇒ its *Mapper is nil
-        let mNil := recv == .nil || (inp.mapperPtr == some true && recv == .clean)
-        execCtor rs ws N mNil args {}
-      | none => execAlloc ws.ptrs t.srcAlloc {}
-    -- after the reset the embedded *Mapper is nil (the constructor does not allocate it either: it has no fields)
-    execStmts rs ws N (inp.mapperPtr == some true) p.fromStmts w0)
+    match p.srcCtor with
+    | some args =>
+      -- `s.Fn(x)` on the incoming receiver: nil receiver ⇒ panic; clean receiver ⇒ its *Mapper is nil
+      let mNil := recv == .nil || (inp.mapperPtr == some true && recv == .clean)
+      let w0 ← execCtor rs ws N mNil args {}
+      execStmts rs ws N false p.fromStmts w0
+    | none =>
+      let w0 ← execAlloc ws.ptrs t.srcAlloc {}
+      execStmts rs ws N (inp.mapperPtr == some true) p.fromStmts w0)
+
+def execFrom (inp : Input) (N : List String) (recv : Recv := .clean) (argNil : Bool := false) : Outcome :=
+  execFromP inp (plan inp) (tables inp (plan inp)) N recv argNil
 
 def Outcome.show (leaves : List Leaf) : Outcome → String
   | .panic => "panic"
